@@ -466,7 +466,7 @@ X02V(r) == FirstFail(<<
 \* X03: the model's reject reason and the message of the exception the code raised
 X03V(r) == FirstFail(<<
   <<"exception-class", r.cls = r.wantcls>>,
-  <<"message-of-the-reject-branch", MessageMatches(r.reason, r.msg)>>
+  <<"message-of-the-reject-branch", r.wantcls = "chart" \/ MessageMatches(r.reason, r.msg)>>
 >>)
 
 (***************************** dispatch ************************************)
